@@ -1,5 +1,6 @@
 import Txtpp.Lemmas.LineEnding
 import Txtpp.Model.Fs
+import Txtpp.Lemmas.OutputConfTxtpp
 /-!
 # Property C12 — generated files use one line ending: that of the source's first line
 -/
@@ -45,6 +46,25 @@ theorem temp_content_one_ending (le : List Char) (body : List (List Char)) (h : 
 
 /-- pieces produced by `str::lines` contain no line terminator when every CR is followed by LF -/
 theorem lines_clean (s : List Char) (h : crDom s = true) : ∀ l ∈ rustLines s, Clean l := rustLines_clean s h
+
+/-- The whole output: for every source whose lines are terminator-free (what `BufRead::lines`
+delivers when CR occurs only before LF), every world in which included files and command output
+have CR only before LF, every mode and both passes — a successful pass's output consists of
+terminator-free pieces joined by the line ending sniffed from the source's first line, regardless
+of the endings used by later source lines, included files, command output, written text or stored
+tag content. -/
+theorem output_one_ending {W : Type} (Wd : World W) (hW : WorldCr Wd) (mode : Mode) (le : List Char)
+    (first trailing : Bool) (w : W) (lines : List (List Char)) (hlines : ∀ l ∈ lines, Clean l)
+    (out : List Char) (w' : W) (h : ppPass Wd mode le first trailing w lines true = .ok out w') : LEonly le out :=
+  output_conf Wd hW mode le first trailing w lines hlines out w' h
+
+/-- … and so does the content of every temp file (the argument lines after the first, joined) -/
+theorem temp_file_one_ending (le : List Char) (d : Directive) (hd : DirClean d) :
+    LEonly le (joinWith le d.args.tail) := temp_body_conf le d hd
+
+/-- the arguments of every directive parsed from terminator-free lines are terminator-free -/
+theorem directive_args_clean (l : List Char) (d : Directive) (hl : Clean l) (h : detectFrom l = some d) : DirClean d :=
+  detect_dirClean l d hl h
 
 example : formatOutput ['\r', '\n'] [' '] ['a', '\n', 'b', '\r', '\n'] = [' ', 'a', '\r', '\n', ' ', 'b', '\r', '\n'] := by decide
 example : crDom ['a', '\n', 'b', '\r', '\n'] = true := by decide
